@@ -7,6 +7,7 @@ import (
 	"fmt"
 	"go/constant"
 	"go/token"
+	"go/types"
 	"strings"
 
 	"golang.org/x/tools/go/ssa"
@@ -524,6 +525,8 @@ func checkC11Wiring(p *Prog, r *Report, ru *Rule) {
 		ru.OK("main.rmain:handler", posOf(jsonH), "slog.New(slog.NewJSONHandler(w, opts))")
 		if isNilConst(jsonH.Common().Args[1]) {
 			ru.OK("main.rmain:level", posOf(jsonH), "default handler options (level Info)")
+		} else if ok, why := handlerKeepsInfo(jsonH.Common().Args[1]); ok {
+			ru.OK("main.rmain:level", posOf(jsonH), "%s", why)
 		} else {
 			ru.Unproven("main.rmain:level", posOf(jsonH), "handler options are not nil; the level could hide Info records")
 		}
@@ -630,4 +633,59 @@ func osConst(p *Prog, name string) int64 {
 		}
 	}
 	return -1
+}
+
+// handlerKeepsInfo: opts is a *slog.HandlerOptions literal of this function
+// whose Level is, on every path, a constant slog.Level not above Info (or is
+// left unset), and which sets no ReplaceAttr (which could rewrite or drop the
+// message and data attributes).
+func handlerKeepsInfo(opts ssa.Value) (bool, string) {
+	al, ok := stripConv(opts, false).(*ssa.Alloc)
+	if !ok {
+		return false, ""
+	}
+	st, ok := al.Type().Underlying().(*types.Pointer).Elem().Underlying().(*types.Struct)
+	if !ok {
+		return false, ""
+	}
+	maxLevel := int64(0)
+	for _, ref := range *al.Referrers() {
+		switch x := ref.(type) {
+		case *ssa.FieldAddr:
+			fname := st.Field(x.Field).Name()
+			for _, r2 := range *x.Referrers() {
+				s2, isStore := r2.(*ssa.Store)
+				if !isStore || s2.Addr != ssa.Value(x) {
+					continue
+				}
+				switch fname {
+				case "Level":
+					for _, l := range phiLeaves(s2.Val) {
+						v := stripConv(l.V, true)
+						k, isC := constInt(v)
+						if !isC {
+							return false, ""
+						}
+						if k > maxLevel {
+							maxLevel = k
+						}
+					}
+				case "AddSource":
+				default:
+					return false, ""
+				}
+			}
+		case *ssa.DebugRef, *ssa.Call:
+		default:
+			if ref != nil {
+				if _, isMI := ref.(*ssa.MakeInterface); !isMI {
+					return false, ""
+				}
+			}
+		}
+	}
+	if maxLevel > 0 {
+		return false, ""
+	}
+	return true, "handler options set a constant level not above Info and no ReplaceAttr"
 }
